@@ -1,3 +1,4 @@
 import SupervisorModel.Basic.DriverKit
--- stub: replaced by the property author
-def main : IO Unit := Sv.driverMain []
+import SupervisorModel.Model.OutDisp
+def main : IO Unit := Sv.driverMain [("outdisp", Sv.OutDisp.runCase), ("strip", Sv.Strip.runCase),
+  ("boundio", Sv.OutDisp.runBound), ("fpae", Sv.OutDisp.runFpae)]
